@@ -38,59 +38,82 @@ func newStore(ss storage.Storage) *store {
 	return s
 }
 
-// flush changed keys to storage
-func (s *store) flush() {
-	s.mu.Lock()
-	defer s.mu.Unlock()
-	now := time.Now().UnixMilli()
+// records returns the records of the index. gc and flush must not hold the index lock while they
+// wait for a key lock: commands hold a key lock when they create or delete a key, which takes the
+// index lock (key lock first, index lock second, everywhere).
+func (s *store) records() (names []string, metas []*metadata) {
+	s.mu.RLock()
+	defer s.mu.RUnlock()
 	s.metadata.Scan(func(key string, m *metadata) bool {
-		m.Lock()
-		defer m.Unlock()
-		if !m.modified() || m.expired(now) || !m.isOk() {
-			return true
-		}
-		if m.value == nil {
-			return true
-		}
-		// save to storage
-		err := s.ss.Set(m.key, m.value)
-		if err != nil {
-			log.Println("Flush changes: ", err)
-		}
+		names = append(names, key)
+		metas = append(metas, m)
 		return true
 	})
+	return
+}
+
+// flush changed keys to storage
+func (s *store) flush() {
+	now := time.Now().UnixMilli()
+	_, metas := s.records()
+	for _, m := range metas {
+		s.flushRecord(m, now)
+	}
+}
+
+func (s *store) flushRecord(m *metadata, now int64) {
+	m.Lock()
+	defer m.Unlock()
+	if m.unlinked || !m.modified() || m.expired(now) || !m.isOk() {
+		return
+	}
+	if m.value == nil {
+		return
+	}
+	// save to storage
+	err := s.ss.Set(m.key, m.value)
+	if err != nil {
+		log.Println("Flush changes: ", err)
+	}
 }
 
 // gc removes expired and unused keys
 func (s *store) gc() {
-	s.mu.Lock()
-	defer s.mu.Unlock()
 	if s.closed {
 		return
 	}
 	now := time.Now().UnixMilli()
-	s.metadata.Scan(func(key string, m *metadata) bool {
-		m.Lock()
-		defer m.Unlock()
-		if m.expired(now) || !m.isOk() {
-			m.unlinked = true
-			s.metadata.Delete(key)
-			return true
+	names, metas := s.records()
+	for i, m := range metas {
+		s.gcRecord(names[i], m, now)
+	}
+}
+
+func (s *store) gcRecord(key string, m *metadata, now int64) {
+	m.Lock()
+	defer m.Unlock()
+	if m.unlinked {
+		return
+	}
+	if m.expired(now) || !m.isOk() {
+		s.mu.Lock()
+		m.unlinked = true
+		s.metadata.Delete(key)
+		s.mu.Unlock()
+		return
+	}
+	if m.modified() {
+		err := s.ss.Set(m.key, m.value)
+		if err != nil {
+			log.Println("GC: ", err)
+			// the only copy is the one in memory: keep it, and keep it marked as modified
+			return
 		}
-		if m.modified() {
-			err := s.ss.Set(m.key, m.value)
-			if err != nil {
-				log.Println("GC: ", err)
-				// the only copy is the one in memory: keep it, and keep it marked as modified
-				return true
-			}
-		}
-		m.reset()
-		if m.count < 0 {
-			m.removeFromMemory()
-		}
-		return true
-	})
+	}
+	m.reset()
+	if m.count < 0 {
+		m.removeFromMemory()
+	}
 }
 
 // close the store
